@@ -35,6 +35,7 @@ from nemoguardrails.colang.v2_x.runtime.errors import (
 )
 from nemoguardrails.colang.v2_x.runtime.flows import Event, FlowStatus
 from nemoguardrails.colang.v2_x.runtime.statemachine import (
+    is_listening_flow,
     FlowConfig,
     InternalEvent,
     State,
@@ -148,6 +149,14 @@ class RuntimeV2_x(Runtime):
         flow_ids = args["flow_ids"]
         # Remove all related flow states
         for flow_id in flow_ids:
+            if any(
+                is_listening_flow(flow_state)
+                for flow_state in state.flow_id_states.get(flow_id, [])
+            ):
+                # An instance of the flow is still running (e.g. started by another flow):
+                # deleting it would orphan the flows and actions it has started
+                log.warning("Flow '%s' is still running, it is not removed", flow_id)
+                continue
             if flow_id in state.flow_id_states:
                 for flow_state in state.flow_id_states[flow_id]:
                     # The heads must no longer be found by the event matching
